@@ -456,6 +456,7 @@ func (e *Engine) run() *Outcome {
 		}
 	}
 	e.registerStores()
+	resetCompressDefaults()
 	e.ev("config", "", fmt.Sprintf("apply config 0 (%s)", cfgSummary(&p.Configs[0])))
 	if err := applyConfig(&p.Configs[0]); err != nil {
 		e.ev("config-error", "", err.Error())
@@ -705,6 +706,18 @@ func (e *Engine) enabled() []action {
 			}
 			ok = e.doneUpTo >= e.nextOp
 			// background goroutines of earlier ops (e.g. server close) do not hold a barrier
+		}
+		if ok && op.Quiesce && len(live) > 0 {
+			ok = false
+		}
+		if ok && op.Kind == OpReload {
+			// configuration updates are applied one at a time (main.go runs update()
+			// from a single watcher loop)
+			for _, t := range live {
+				if t.Kind == "reload" {
+					ok = false
+				}
+			}
 		}
 		if ok {
 			acts = append(acts, action{name: fmt.Sprintf("start:%d", e.nextOp), weight: 1.5, kind: 3})
